@@ -263,7 +263,7 @@ func runStoreProp(prop, tier string, r *rng) {
 		flushInHandlerCase(prop, 5, 6, 4, 4)
 	}
 	if prop == "C08" || prop == "C14" {
-		for round := 0; round < 4; round++ {
+		for round := 0; round < 8; round++ { // which worker gets which height is up to the scheduler
 			parFailCase(prop, 40, 31, 12, 4, false)
 			parFailCase(prop, 30, 30, 20, 3, false)
 		}
